@@ -1,6 +1,6 @@
 """k3check.py -- shared runner for the crash properties C02 C03 C04 C05 (tie K3)."""
 import os, json, shutil, time, subprocess
-from concurrent.futures import ThreadPoolExecutor
+from concurrent.futures import ThreadPoolExecutor, ProcessPoolExecutor
 import vlib, k3lib, k2lib
 
 FOLLOWUP = ['batch p66757031:@7:1,p61:@9:2 0', 'batch p66757032:@7:3 1', 'del 62', 'flush', 'scan -', 'reopen', 'scan -', 'layout']
@@ -174,8 +174,8 @@ def run_crash(rep, prop, tier, seed, modes, nhist, nops, max_points, opts_list, 
     for i in range(nhist):
         opts = dict(opts_list[i % len(opts_list)])
         jobs.append((k3, k2, out, i, rng.next(), opts, nops, modes, max_points, nested, big, tier))
-    with ThreadPoolExecutor(vlib.NCPU) as ex:
-        results = list(ex.map(explore_history, jobs))
+    with ProcessPoolExecutor(vlib.NCPU) as ex:
+        results = list(ex.map(explore_history, jobs, chunksize=1))
     totals = {}
     reported = 0
     for r in results:
